@@ -448,12 +448,30 @@ def scale_sessions(tier):
         bs = ['b %d' % i for i in range(1, n + 1)]
         out.append(('scale-straight', straight, tuple(bs + ['b', 'r', 's'] + bs[1::2] + ['b', 'r', 's', 'r', 'r', 's'])))
         out.append(('scale-straight', straight, tuple(['b %d' % (n + 1), 'r', 's'] + ['p'] * (n // 2) + ['r', 's', 'n', 'p', 'p', 's'])))
-    loop = scale.loop_program(150) + ' 항.'          # 1050 commands executed before the last one
+    loop = scale.loop_program(180) + ' 항.'          # 6 K + 2 = 1082 commands executed before the last one
     last = len(P.parse(loop)) - 1
-    for k in ((500, 513, 1040, 1060) if q else (255, 257, 500, 511, 512, 513, 520, 600, 1023, 1024, 1025, 1040, 1049, 1060)):
+    for k in ((500, 570, 1075, 1090) if q else (255, 257, 500, 511, 512, 513, 520, 570, 600, 1023, 1024, 1025, 1075, 1081, 1082, 1090)):
         out.append(('scale-loop', loop, tuple(['b %d' % last, 'r', 's'] + ['p'] * k + ['s', 'n', 's'])))
     for k in ((130, 260) if q else (64, 65, 128, 129, 130, 256, 257, 260)):
         out.append(('scale-loop', scale.loop_program(300), tuple(['b 3'] + ['r'] * k + ['s', 'p', 's', 'r', 's'])))
+    return out
+
+
+def padded_sessions(tier):
+    """short scripts with a block of n neutral commands (unknown word, state dump) at every position: the number of
+    commands a session has seen is taken across the size ladder"""
+    q = tier == 'quick'
+    sizes = (16, 17, 64, 65, 256, 257) if q else (7, 8, 9, 15, 16, 17, 31, 32, 33, 63, 64, 65, 127, 128, 129, 255, 256, 257, 1024, 1025)
+    bases = [('n', 'n', 'p', 's', 'n'), ('r', 'p', 's', 'r'), ('b 2', 'r', 's', 'p', 'r', 'r'), ('n', 'r', 'p', 'p', 'n', 's'),
+             ('b 3', 'b 1', 'b', 'r', 'b 1', 'b', 'r', 's')]
+    out = []
+    for name in ('loop5', 'heart-return', 'straight', 'enc-after-stderr'):
+        text = dict(PROGRAMS)[name]
+        for base in bases:
+            for p in range(len(base) + 1):
+                for n in sizes:
+                    for neutral in ('zzz', 's'):
+                        out.append((name, text, tuple(base[:p]) + (neutral,) * n + tuple(base[p:])))
     return out
 
 
@@ -499,6 +517,14 @@ def run_c11(tier):
     for name, text, script in sc:
         tasks.append((name, text, [script]))
     info['size-ladder'] = {'sessions': len(sc), 'longest_script': max(len(s[2]) for s in sc)}
+    pad = padded_sessions(tier)
+    info['neutral-command-padding'] = {'sessions': len(pad)}
+    bykey = {}
+    for name, text, script in pad:
+        bykey.setdefault((name, text), []).append(script)
+    for (name, text), scripts in bykey.items():
+        for i in range(0, len(scripts), 60):
+            tasks.append((name, text, scripts[i:i + 60]))
     collect(st, pmap(_task, [(t,) for t in tasks]))
     cov = {
         'states': nstates,
